@@ -94,9 +94,18 @@ pub fn search(args: &[String]) -> i32 {
     let text = r.pick(&TEXTS).to_string();
     let mut bounds: Vec<u32> = (0..=text.len()).filter(|&i| text.is_char_boundary(i)).map(|i| i as u32).collect();
     bounds.push(text.len() as u32 + 1); bounds.push(text.len() as u32 + 7); bounds.push(1000);
-    let n = 1 + r.below(5);
+    let big = tried % 16 == 15;
+    let n = if big { 24 + r.below(80) } else { 1 + r.below(5) };
     let mut ops = vec![];
-    for _ in 0..n {
+    if big {
+      // many replacements sharing few keys, in arbitrary order: the tie order (insertion order) must survive the sort
+      let keys: Vec<(u32, u32)> = (0..2 + r.below(3)).map(|_| { let a = r.pick(&bounds); (a, a) }).collect();
+      for i in 0..n {
+        let (s, e) = r.pick(&keys);
+        ops.push(Op { start: s, end: e, enforce: 1, content: format!("<{i}>"), observe: if r.below(8) == 0 { 1 } else { 0 } });
+      }
+    }
+    for _ in 0..(if big { 0 } else { n }) {
       let a = r.pick(&bounds); let b = r.pick(&bounds);
       let (s, e) = if a <= b { (a, b) } else { (b, a) };
       let (s, e) = if r.below(3) == 0 { (s, s) } else { (s, e) };
@@ -108,7 +117,7 @@ pub fn search(args: &[String]) -> i32 {
   match found {
     Some((text, mut ops, mut d)) => {
       let mut i = 0;
-      while i < ops.len() && ops.len() > 1 { let mut t = ops.clone(); t.remove(i); if let Some(d2) = check(&text, &t) { ops = t; d = d2; } else { i += 1; } }
+      if ops.len() <= 12 { while i < ops.len() && ops.len() > 1 { let mut t = ops.clone(); t.remove(i); if let Some(d2) = check(&text, &t) { ops = t; d = d2; } else { i += 1; } } }
       println!("WITNESS kind=replace input={}", fmt(&text, &ops));
       println!("DETAIL {} :: {d}", human(&text, &ops));
       println!("TRIED {tried}");
